@@ -1,0 +1,52 @@
+//go:build verif
+
+package type3
+
+import "sort"
+
+// Hooks for the /verif correspondence harness. Compiled only with -tags verif; they add
+// exported aliases of unexported helpers and read-only accessors, and change no behaviour.
+
+func VerifPadOriginName(originName string) []byte { return padOriginName(originName) }
+
+func VerifUnpadOriginName(padded []byte) string { return unpadOriginName(padded) }
+
+func VerifComputeIndex(clientKey, indexKey []byte) ([]byte, error) {
+	return computeIndex(clientKey, indexKey)
+}
+
+func VerifNewInnerTokenRequest(tokenKeyID uint8, blindedMsg, paddedOrigin []byte) *InnerTokenRequest {
+	return &InnerTokenRequest{tokenKeyId: tokenKeyID, blindedMsg: blindedMsg, paddedOrigin: paddedOrigin}
+}
+
+func (r *InnerTokenRequest) VerifFields() (uint8, []byte, []byte) {
+	return r.tokenKeyId, r.blindedMsg, r.paddedOrigin
+}
+
+func VerifEncryptOriginTokenRequest(nameKey EncapKey, tokenKeyID uint8, blindedMessage []byte, requestKey []byte, originName string) ([]byte, []byte, []byte, error) {
+	return encryptOriginTokenRequest(nameKey, tokenKeyID, blindedMessage, requestKey, originName)
+}
+
+func VerifDecryptOriginTokenRequest(nameKey PrivateEncapKey, requestKey []byte, encryptedTokenRequest []byte) (InnerTokenRequest, []byte, error) {
+	return decryptOriginTokenRequest(nameKey, requestKey, encryptedTokenRequest)
+}
+
+func (i *RateLimitedIssuer) VerifNameKey() PrivateEncapKey { return i.nameKey }
+
+// VerifSnapshot returns the attester's per-client bookkeeping as sorted (key, value) pairs.
+func (s *ClientState) VerifSnapshot() (originIndices, clientIndices [][2]string) {
+	for k, v := range s.originIndices {
+		originIndices = append(originIndices, [2]string{k, v})
+	}
+	for k, v := range s.clientIndices {
+		clientIndices = append(clientIndices, [2]string{k, v})
+	}
+	less := func(a [][2]string) func(i, j int) bool {
+		return func(i, j int) bool { return a[i][0] < a[j][0] }
+	}
+	sort.Slice(originIndices, less(originIndices))
+	sort.Slice(clientIndices, less(clientIndices))
+	return
+}
+
+func (s RateLimitedTokenRequestState) VerifEncapEnc() []byte { return s.encapEnc }
